@@ -343,3 +343,35 @@ def failing_transport(fail_at):
                 raise ConnectionError("verif: transport outbox full at publish #%d" % n)
             return super().publish(*a, **k)
     return VerifFailingTransport()
+
+
+# ---- numpy arrays in the context: same bytes, another shape / dtype ----
+def make_array_rewriter(key, how):
+    """Operation that rewrites context key `key` (a numpy array it receives as a parameter) with the same bytes in another
+    shape ('ravel', 'reshape'), another dtype ('view'), an equal copy ('copy') or changed content ('plus')."""
+    name = "VerifArrayRewriter_%s_%s" % (key, how)
+    if name not in _cache:
+        def _process_logic(self, data, **kw):
+            import numpy as np
+            arr = kw[key]
+            new = {"ravel": lambda a: a.ravel(), "reshape": lambda a: a.reshape(a.shape[::-1]), "copy": lambda a: a.copy(),
+                   "view": lambda a: a.view(np.int32 if a.dtype == np.float32 else np.int64), "plus": lambda a: a + 1}[how](arr)
+            self._notify_context_update(key, new)
+            return FloatDataType(data.data)
+
+        def context_keys(cls):
+            return [key]
+        src = "def _process_logic(self, data, %s):\n    return _impl(self, data, %s=%s)\n" % (key, key, key)
+        ns = {"_impl": _process_logic}
+        exec(src, ns)
+        _cache[name] = type(name, (FloatOperation,), {"_process_logic": ns["_process_logic"], "context_keys": classmethod(context_keys),
+                                                       "__doc__": "Rewrites a numpy array held in the context."})
+    return _cache[name]
+
+
+class VerifCollectionReturningOperation(FloatOperation):
+    """Declared FloatDataType -> FloatDataType, but returns a FloatDataCollection (a processor that breaks its output contract)."""
+
+    def _process_logic(self, data):
+        from semantiva.examples.test_utils import FloatDataCollection
+        return FloatDataCollection.from_list([FloatDataType(data.data), FloatDataType(data.data)])
